@@ -21,7 +21,7 @@ man = {
   "setup_cmd": "./setup.sh",
   "hooks": {
     "guard": "verif (Go build tag)",
-    "enable": "go build -tags verif (the ./check driver always passes it); C16 additionally instruments two files through a build overlay generated from /repo's working tree, nothing committed",
+    "enable": "go build -tags verif (the ./check driver always passes it); C16 additionally instruments three files (cache.go, common.go, combined_native_client.go) through a build overlay generated from /repo's working tree, nothing committed",
     "baseline_off_cmd": "for m in $(cat /w/out/gomods.txt); do MF=$(cd /repo/$m && . /w/out/goenv.sh && gomodflag); (cd /repo/$m && go test $MF -json -vet=off -count=1 -timeout 25m ./...); done",
     "source_commits": hook_commits,
     "add_only": True,
